@@ -4,8 +4,8 @@
 (*               unit's menu that satisfies the property's precondition (Schedule!Pre)              *)
 (*   starts    : the anchors, and around the unit boundary (Depth >= 2: and the next one) and every *)
 (*               occurrence of the anchor's unit: one second before, exactly at, a microsecond after*)
-(*   counts    : Counts;   ends : none, before start, and (Depth >= 1) exactly at / just before,    *)
-(*               (Depth >= 2) a microsecond / a second after the first and last occurrence          *)
+(*   counts    : Counts;   ends : none, exactly at / just before the last occurrence, and           *)
+(*               (Depth >= 2) before start, at / just before the first, just after the last         *)
 (* plus one-slot schedules built from every pair of part kinds for every unit (most of them are     *)
 (* invalid: kind not available for the unit, or a unit mentioned twice).                            *)
 (* The input space is written to OUT_FILE so that the harness runs the real SCHEDULE on it.         *)
@@ -71,10 +71,13 @@ Starts(sc) ==
 
 Ends(in) ==
   LET e == Occ(in)
-      js == IF e = <<>> THEN {} ELSE {1, Len(e)}
-  IN {<<0, 0, 0>>, <<1, in.start - 1, 0>>}
-     \cup (IF Depth >= 1 THEN UNION {{<<1, e[j], 0>>, <<1, e[j] - 1, 1>>} : j \in js} ELSE {})
-     \cup (IF Depth >= 2 THEN UNION {{<<1, e[j], 1>>, <<1, e[j] + 1, 0>>} : j \in js} ELSE {})
+      l == Len(e)
+  IN IF l = 0 THEN {<<0, 0, 0>>}
+     ELSE {<<0, 0, 0>>, <<1, e[l], 0>>, <<1, e[l] - 1, 1>>}
+          \cup (IF Depth >= 2
+                THEN {<<1, in.start - 1, 0>>, <<1, e[1], 0>>, <<1, e[1] - 1, 1>>,
+                      <<1, e[l], 1>>, <<1, e[l] + 1, 0>>}
+                ELSE {})
 
 Good ==
   UNION {
